@@ -58,6 +58,7 @@ pub fn panic_msg(e: Box<dyn std::any::Any + Send>) -> String {
 
 impl<T: FftNum> AnyPlanner<T> {
     pub fn new(kind: Kind) -> NewResult<T> {
+        let _lib = crate::calls::LibScope::enter();
         let r = catch_unwind(|| match kind {
             Kind::Auto => Ok(AnyPlanner::Auto(FftPlanner::new())),
             Kind::Scalar => Ok(AnyPlanner::Scalar(FftPlannerScalar::new())),
@@ -88,6 +89,7 @@ impl<T: FftNum> AnyPlanner<T> {
     }
     /// plan (and build); a panic is data
     pub fn plan(&mut self, len: usize, dir: FftDirection) -> Result<Arc<dyn Fft<T>>, String> {
+        let _lib = crate::calls::LibScope::enter();
         catch_unwind(AssertUnwindSafe(|| match self {
             AnyPlanner::Auto(p) => p.plan_fft(len, dir),
             AnyPlanner::Scalar(p) => p.plan_fft(len, dir),
@@ -98,6 +100,7 @@ impl<T: FftNum> AnyPlanner<T> {
     }
     /// plan report without building (None for the automatic planner, which has no report of its own)
     pub fn report(&mut self, len: usize, dir: FftDirection) -> Option<Result<String, String>> {
+        let _lib = crate::calls::LibScope::enter();
         match self {
             AnyPlanner::Auto(_) => None,
             AnyPlanner::Scalar(p) => Some(catch_unwind(AssertUnwindSafe(|| p.verif_design(len))).map_err(panic_msg)),
